@@ -38,6 +38,9 @@ type Message struct {
 	ctx        context.Context
 }
 
+// bodyReadChunk is the initial size of the buffer a message body is read into.
+const bodyReadChunk = 1 << 10
+
 var readerBufferPool sync.Pool
 
 func newReaderBuffer() *bytes.Buffer {
@@ -110,17 +113,37 @@ func (m *Message) readHeader(r io.Reader, buf *bytes.Buffer) (cmd *dict.Command,
 func (m *Message) readBody(r io.Reader, buf *bytes.Buffer, cmd *dict.Command, stream uint) error {
 	var err error
 	var n int
+	l := int(m.Header.MessageLength - HeaderLength)
 	// Decoded values (Address, IPv4, IPv6, Unknown, ...) keep referencing the
 	// body, so it must not live in the pooled, reused read buffer.
-	b := make([]byte, int(m.Header.MessageLength-HeaderLength))
+	// The buffer grows as the data arrives: the memory used is bounded by what
+	// the peer actually sent, not by the length its header declares.
+	size := l
+	if size > bodyReadChunk {
+		size = bodyReadChunk
+	}
+	b := make([]byte, 0, size)
 	msr, isMulti := r.(MultistreamReader)
-	if isMulti {
-		n, _, err = msr.ReadAtLeast(b, len(b), stream)
-	} else {
-		n, err = io.ReadFull(r, b)
+	for len(b) < l && err == nil {
+		if len(b) == cap(b) {
+			size = 2 * cap(b)
+			if size > l {
+				size = l
+			}
+			nb := make([]byte, len(b), size)
+			copy(nb, b)
+			b = nb
+		}
+		p := b[len(b):cap(b)]
+		if isMulti {
+			n, _, err = msr.ReadAtLeast(p, len(p), stream)
+		} else {
+			n, err = io.ReadFull(r, p)
+		}
+		b = b[:len(b)+n]
 	}
 	if err != nil {
-		return fmt.Errorf("readBody Error: %v, %d bytes read", err, n)
+		return fmt.Errorf("readBody Error: %v, %d bytes read", err, len(b))
 	}
 	n = m.maxAVPsFor(cmd)
 	if n == 0 {
